@@ -47,6 +47,20 @@ theorem scan_is_bounded (cfg : Config) (hv : cfg.Valid) (data : Bytes) (script :
   rw [Proofs.stream_independent_of_delivery cfg hv data script hc, Proofs.chunkAll_eq_specChunks cfg hv]
   exact Proofs.specChunks_tile cfg hv data
 
+/-- **T2 (bounded work, at the archive boundary).**  The chunker parameters the reader accepts are
+exactly the valid ones (`Config.Valid` *is* `configAccepted`: RollSum with a window larger than the
+maximum chunk size included), so scanning a seed with the parameters of *any* archive that opened
+is bounded as above. -/
+theorem accepted_iff_valid (c : Config) : configAccepted c = true ↔ c.Valid :=
+  Proofs.configAccepted_iff_valid c
+
+theorem accepted_archive_scan_is_bounded (H : Bytes → Bytes) (features : List Nat)
+    (read : Nat → Nat → Option Bytes) (a : Archive) (h : tryInit H features read = .ok a)
+    (data : Bytes) (script : List Rd) (hc : Complete script data.length = true) :
+    Tiles (chunkStream a.config data script) 0 data.length :=
+  scan_is_bounded a.config
+    ((accepted_iff_valid a.config).1 (Proofs.tryInit_ok_facts H features read a h).1) data script hc
+
 /-- **T3.**  For *any* server behaviour (any bytes of any length for any range: surplus bytes,
 empty bodies, error pages), any failure script, any retry budget, and chunks of stored size ≥ 1
 (enforced at open), the HTTP chunk reader's stream contains no panic item - no underflow of the
@@ -82,5 +96,9 @@ example :
     openDict { chunkerParams := some ⟨5, 1, 9, 3, 8, 1⟩, chunkCompression := some ⟨0, 0⟩, rebuildOrder := [0],
                chunkDescriptors := [⟨[1,2,3,4,5,6,7,8], 0, 0, 3⟩] } = true := by
   decide +kernel
+
+/-- a RollSum window larger than the maximum chunk size is accepted, and valid -/
+example : configAccepted (.rollsum ⟨2, 0, 3, 8⟩) = true ∧ (Config.rollsum ⟨2, 0, 3, 8⟩).Valid ∧
+    configAccepted (.buzhash ⟨2, 0, 3, 8⟩) = false := by decide
 
 end Bita.Props.C15
